@@ -44,9 +44,11 @@ def run(ctx, prop):
     hb = ctx.build("tasklane", race=race)
     args = [hb, "-out", ctx.path("traces.ndjson")]
     if q:
-        args += ["-random", "40", "-gatek", "1", "-atrest", "1", "-panics", "4", "-burst", "2", "-burstper", "50", "-timeouts", "3", "-lastpanic", "12"]
+        args += ["-random", "40", "-gatek", "1", "-atrest", "1", "-panics", "4", "-burst", "2", "-burstper", "50", "-timeouts", "3", "-lastpanic", "12", "-burstprobe", "25000"]
     else:
-        args += ["-random", "600", "-gatek", "3", "-atrest", "8", "-panics", "60", "-burst", "24", "-burstper", "150", "-timeouts", "40", "-lastpanic", "150"]
+        args += ["-random", "600", "-gatek", "3", "-atrest", "8", "-panics", "60", "-burst", "24", "-burstper", "150", "-timeouts", "40", "-lastpanic", "150", "-burstprobe", "200000"]
+    if prop != "C14":
+        args += ["-panicmarathon", "30000"]      # the long one belongs to C14
     p = ctx.run(args, timeout=3000, ok_codes=(0, 66, 2), env={"GORACE": "halt_on_error=0"})
     if p.returncode == 2:
         # the harness process died: a Go run-time panic that escaped (or happened inside) the lane's own goroutines
@@ -98,7 +100,7 @@ def run(ctx, prop):
     per_kind = {}
     chosen = []
     for c in sorted(rows, key=lambda c: len(c["evs"])):
-        if len(c["evs"]) > (260 if q else 500) or c["kind"] in ("quietburst", "marathon", "panicmarathon"):
+        if len(c["evs"]) > (260 if q else 500) or c["kind"] in ("quietburst", "marathon", "panicmarathon", "burstprobe"):
             continue
         per_kind.setdefault(c["kind"], 0)
         if per_kind[c["kind"]] < (8 if q else 60):
